@@ -370,7 +370,24 @@ void Translator::emitGlobalDef(raw_ostream& os, const GlobalVariable* G) {
 
 static bool isThreadEntry(const Function* F) { return F->getName().startswith("vf_thread_"); }
 
-void Translator::emitModule(raw_ostream& os, const std::vector<std::string>& roots) {
+static std::vector<std::pair<uint64_t, const Function*>> collectCtors(Module& M) {
+  std::vector<std::pair<uint64_t, const Function*>> ctors;
+  if (auto* GC = M.getGlobalVariable("llvm.global_ctors"))
+    if (GC->hasInitializer())
+      if (auto* CA = dyn_cast<ConstantArray>(GC->getInitializer()))
+        for (const Use& U : CA->operands()) {
+          auto* CS = cast<ConstantStruct>(U.get());
+          uint64_t prio = cast<ConstantInt>(CS->getOperand(0))->getZExtValue();
+          if (auto* Fn = dyn_cast<Function>(CS->getOperand(1)->stripPointerCasts())) ctors.push_back({prio, Fn});
+        }
+  std::stable_sort(ctors.begin(), ctors.end(), [](auto& a, auto& b) { return a.first < b.first; });
+  return ctors;
+}
+
+void Translator::emitModule(raw_ostream& os, const std::vector<std::string>& roots0) {
+  std::vector<std::string> roots = roots0;
+  auto ctors = collectCtors(M);
+  for (auto& c : ctors) roots.push_back(c.second->getName().str());
   computeReach(roots);
   for (auto* F : reachFOrder)
     for (const BasicBlock& BB : *F)
@@ -405,16 +422,6 @@ void Translator::emitModule(raw_ostream& os, const std::vector<std::string>& roo
     po << protoOf(F, globalName(F)) << ";\n";
     emitFunction(bo, *F, -1);
   }
-  // global ctors
-  std::vector<std::pair<uint64_t, const Function*>> ctors;
-  if (auto* GC = M.getGlobalVariable("llvm.global_ctors"))
-    if (GC->hasInitializer())
-      if (auto* CA = dyn_cast<ConstantArray>(GC->getInitializer()))
-        for (const Use& U : CA->operands()) {
-          auto* CS = cast<ConstantStruct>(U.get());
-          uint64_t prio = cast<ConstantInt>(CS->getOperand(0))->getZExtValue();
-          if (auto* Fn = dyn_cast<Function>(CS->getOperand(1)->stripPointerCasts())) ctors.push_back({prio, Fn});
-        }
   for (size_t i = 0; i < reachGOrder.size(); ++i) { // may grow
     const GlobalVariable* G = reachGOrder[i];
     if (G->getName().startswith("llvm.")) continue;
@@ -425,6 +432,9 @@ void Translator::emitModule(raw_ostream& os, const std::vector<std::string>& roo
   bo.flush(); gdo.flush(); gdc.flush(); po.flush();
   emitAggDefs(os);
   os << "\n" << gdecls << "\n" << protos << "\n" << gdefs << "\n" << bodies;
+  os << "void vf_global_ctors(void) {\n";
+  for (auto& c : ctors) os << "  " << globalName(c.second) << "();\n";
+  os << "}\n";
 }
 
 void Translator::writeSidecar(raw_ostream& os, const std::vector<std::string>& roots) {
